@@ -51,7 +51,11 @@ var featureMap = map[string][]jsref.Feature{
 	"regexp-unicode-property-escapes": {jsref.FeatRegexpUnicodeProperty}, "arrow": {jsref.FeatArrow}, "const-and-let": {jsref.FeatLetConst},
 	"for-of": {jsref.FeatForOf}, "generator": {jsref.FeatGenerator}, "new-target": {jsref.FeatNewTarget}, "default-argument": {jsref.FeatDefaultParams}, "rest-argument": {jsref.FeatRestParams},
 	"class": {jsref.FeatClass}, "destructuring": {jsref.FeatDestructuring}, "dynamic-import": {jsref.FeatDynamicImport}, "import-meta": {jsref.FeatImportMeta}, "export-star-as": {jsref.FeatExportStarAs},
-	"top-level-await": {jsref.FeatTopLevelAwait}, "hashbang": {jsref.FeatHashbang},
+	"top-level-await": {jsref.FeatTopLevelAwait},
+	// "hashbang" is deliberately not an override the generator draws: esbuild documents that it preserves a
+	// hashbang line ("hashbang comment preservation", it also marks the file executable); the line is consumed
+	// by the OS / Node's loader and is never transformed, for any target or override. Same policy as oracle (1)
+	// and the real-engine oracle, which both disregard a hashbang at offset 0.
 }
 
 func featNames() []string {
@@ -606,7 +610,7 @@ func runFamilies(t *testing.T) {
 }
 
 func runOverrides(t *testing.T) {
-	H.Rule("overrides", "rapid: a family/rare snippet or jsgen program × random language target and/or Node engine × `supported` overrides in both directions (false ⇒ feature absent from every emitted file incl. helpers; true on a low language target ⇒ the input's use is not lowered, asserted only when EVERY newer-than-target feature of the input is declared supported — otherwise esbuild may lower the feature together with an unsupported neighbour (class fields next to lowered private fields, static blocks next to lowered static fields, `async *` without async-generator) to keep evaluation order, which the property allows; the generator declares the input's whole newer feature set supported in half of the `true` cases, class supported-true-domain) × bundle × format × minify. For the real-engine oracle a hashbang at offset 0 is blanked first: Node's loader, not its parser, consumes it (Node 10 runs such a file but its vm.Script rejects `#!`)")
+	H.Rule("overrides", "rapid: a family/rare snippet or jsgen program × random language target and/or Node engine × `supported` overrides in both directions (false ⇒ feature absent from every emitted file incl. helpers; true on a low language target ⇒ the input's use is not lowered, asserted only when EVERY newer-than-target feature of the input is declared supported — otherwise esbuild may lower the feature together with an unsupported neighbour (class fields next to lowered private fields, static blocks next to lowered static fields, `async *` without async-generator) to keep evaluation order, which the property allows; the generator declares the input's whole newer feature set supported in half of the `true` cases, class supported-true-domain) × bundle × format × minify. A hashbang line is outside the check in all three oracles (esbuild documents preserving it; `hashbang` is not drawn as an override). For the real-engine oracle a hashbang at offset 0 is blanked first: Node's loader, not its parser, consumes it (Node 10 runs such a file but its vm.Script rejects `#!`)")
 	H.SetupRapid("overrides", H.N(2500, 150000))
 	rapid.Check(t, func(rt *rapid.T) {
 		c := Case{}
